@@ -20,7 +20,7 @@ CHECKS = {
         "that candidate lists are exactly the in-range destinations plus the null link at search_range^2, that subnets partition sources and share no destination, that "
         "solving subnets separately is globally optimal over previous-frame + remembered sources, Oversize iff a subnet exceeds the limit, and that the executable monitor "
         "is sound. Correspondence: every link_strategy of trackpy.link_iter and the three subnet linkers on constructed candidate graphs are checked step by step "
-        "by the monitor (cost of the implementation's assignment = verified optimum; raise iff). Route T: SubnetLinker.do_recur/__init__ and assign_subnet are REGENERATED from /repo's source on every run (tools/py2coq_linker.py -> coq/Gen/linker_core.v) and proved equal to the model's search/solve and subnet-dictionary model for all inputs; the subnet dictionary (Subnets.compute/assign_subnet) is modelled line by line and proved to build exactly the connected components = Link.components; dictionaries observed inside real Linker runs are compared with it. Also regenerated (tools/py2coq_linkstep.py -> coq/Gen/linkstep.v): Subnets.__init__/compute, subnet_linker_recursive, Linker.assign_links / apply_links / next_level, with per-subnet optimality and the memory-queue theorem stated about the generated code.",
+        "by the monitor (cost of the implementation's assignment = verified optimum; raise iff). Route T: SubnetLinker.do_recur/__init__ and assign_subnet are REGENERATED from /repo's source on every run (tools/py2coq_linker.py -> coq/Gen/linker_core.v) and proved equal to the model's search/solve and subnet-dictionary model for all inputs; the subnet dictionary (Subnets.compute/assign_subnet) is modelled line by line and proved to build exactly the connected components = Link.components; dictionaries observed inside real Linker runs are compared with it. Also regenerated (tools/py2coq_linkstep.py -> coq/Gen/linkstep.v): Subnets.__init__/compute, subnet_linker_recursive, Linker.assign_links / apply_links / next_level, with per-subnet optimality and the memory-queue theorem stated about the generated code. C02_generated_step_optimal: the whole generated step is optimal (the hybrid shortcut exactly under its cost bound; the 1e-7 admission slack is pinned down by a refuting example; the KD-tree query hypothesis is explicit).",
    note=LINK_NOTE + " The nonrecursive and numba solvers are tied to the verified optimum by the monitor on every generated case, not by their own refinement proof."),
 }
 
@@ -52,7 +52,7 @@ CHECKS.update({
    text="Proof: Properties/C12.v - adaptive step = plain step whenever every subnet fits the adaptive limit; a subnet that fits is never split; every finally solved sub-group only contains "
         "candidate pairs within its reduced range (no longer link can be made) and is solved optimally with that range as the cost of not linking; a raise exhibits a still-oversize "
         "group at a range <= adaptive_stop and a normal return means there was none. Correspondence: link_iter(adaptive_stop, adaptive_step) with lowered MAX_SUB_NET_SIZE_ADAPTIVE on dense "
-        "clusters; the Coq model re-splits oversize groups itself and the monitor decides leaf by leaf admissibility and optimal cost for the leaf's range as null cost, and raise iff the model raises. Route T: adaptive_link_wrap, split_subnet and subnet_linker_drop are REGENERATED from /repo's source on every run (tools/py2coq_adaptive.py -> coq/Gen/adaptive.v); the generated wrapper over the generated splitter is proved to be the generic adaptive recursion, the split dictionary to be the connected components, and the raise-iff / no-long-link / leaf-optimality theorems are proved for the composition; the ladder of reduced ranges actually used is observed in real runs. C12_split_recursions_equivalent / C12_generated_is_model: the generated adaptive recursion is equivalent to the model asplit for all inputs (same raise, permuted leaves, equal leaf optima).",
+        "clusters; the Coq model re-splits oversize groups itself and the monitor decides leaf by leaf admissibility and optimal cost for the leaf's range as null cost, and raise iff the model raises. Route T: adaptive_link_wrap, split_subnet and subnet_linker_drop are REGENERATED from /repo's source on every run (tools/py2coq_adaptive.py -> coq/Gen/adaptive.v); the generated wrapper over the generated splitter is proved to be the generic adaptive recursion, the split dictionary to be the connected components, and the raise-iff / no-long-link / leaf-optimality theorems are proved for the composition; the ladder of reduced ranges actually used is observed in real runs. C12_split_recursions_equivalent / C12_generated_is_model: the generated adaptive recursion is equivalent to the model asplit for all inputs (same raise, permuted leaves, equal leaf optima). C12_generated_adaptive_recursive: the generated wrapper over the generated splitter over the generated recursive linker, with scale invariance of the search.",
    note=LINK_NOTE + " 'Raise exactly when' is proved relative to sufficient fuel (a return containing OutOfFuel is reported by the monitor as code 10, never observed). "
         "Correspondence restricted to isotropic ranges and binary-fraction steps (exact floats).",
    technique="machine-checked proofs over an executable Gallina model + translator from Python source to Coq (regenerated per run, proved equal to the model) + correspondence run"),
@@ -82,7 +82,7 @@ CHECKS.update({
    text="Proof (partial): Properties/C16.v - the bounds box is exactly the intersection of requested and default intervals; default bounds keep positions within the mask radius and "
         "signal/size/background positive; for an arbitrary optimiser a failed unit keeps its input values with cost NaN and units do not affect each other; a fit reported successful lies "
         "within all bounds under the stated SLSQP contract; the monitor is sound. Correspondence/monitor on real refine_leastsq runs (out-of-image starts, NaN parameters, absurd feasible bounds, "
-        "non-convergent starts, clusters); accuracy on exact-model images is monitored only. Route T: validate_bounds / compute_bounds and their wiring in refine_leastsq are REGENERATED from /repo's source on every run (tools/py2coq_bounds.py -> coq/Gen/bounds.v) and proved equal to the bounds model; the recentring loop (max_iter, accept-and-break, exhaustion, rms test after the loop) has an exact control-flow model with the full-strength driver theorem C16_driver_full; recorded optimiser outcomes are replayed through the model.",
+        "non-convergent starts, clusters); accuracy on exact-model images is monitored only. Route T: validate_bounds / compute_bounds and their wiring in refine_leastsq are REGENERATED from /repo's source on every run (tools/py2coq_bounds.py -> coq/Gen/bounds.v) and proved equal to the bounds model; the recentring loop (max_iter, accept-and-break, exhaustion, rms test after the loop) has an exact control-flow model with the full-strength driver theorem C16_driver_full; recorded optimiser outcomes are replayed through the model. The driver loop of refine_leastsq itself (frame loop, cluster loop, try / except RefineException, the three write-back branches, compute_error) is REGENERATED (tools/py2coq_refinedriver.py -> coq/Gen/refinedriver.v) and proved equal to the control-flow model for all optimiser oracles (C16_gen_driver_full).",
    note=STAT_NOTE + "SLSQP enters as a Section variable assumed only to return a point of the box when it reports success. No theorem is possible for 'no other exception type escapes' and for the "
         "0.1 px accuracy sentence: both are monitored. Infeasible (empty) boxes and non-finite positions are argument errors outside the property.",
    technique="machine-checked proofs over an executable Gallina model + translator from Python source to Coq for the bounds assembly (regenerated per run) + correspondence run"),
@@ -102,7 +102,7 @@ CHECKS.update({
    text="Proof (partial): Properties/C19.v - cluster: same id iff connected by a chain of features within separation, sizes = component sizes, ids never reused across frames, monitor sound; "
         "proximity = distance to the nearest other feature; g(r) = corrected pair histogram / (density*N*dr), invariant under permutation and (given boundary) translation; 2-D edge correction: "
         "arclen_2d_bounded = r x measure of the directions inside the box, for every r > 0 and centre in the box; 3-D: consistency identities only. Correspondence: exact models vs trackpy.static on lattice point sets; arclen_2d_bounded / area_3d_bounded against "
-        "independent geometric references. Route T: the seven edge-correction functions are REGENERATED from /repo's source on every run (tools/py2coq_static.py -> coq/Gen/static_geom.v) and proved equal to the models; the 2-D measure theorem is restated for the generated arclen_2d_bounded; 3-D: area_3d_bounded is the true area when only the faces of one axis are within reach (C19_area_3d_single_cap_partial). 3-D: the edge correction is also proved for adjacent faces with disjoint or overlapping caps and parallel-edge configurations (edge term = lune area), and the slice-integral identity holds in every regime; the corner term stays with the numerical reference.",
+        "independent geometric references. Route T: the seven edge-correction functions are REGENERATED from /repo's source on every run (tools/py2coq_static.py -> coq/Gen/static_geom.v) and proved equal to the models; the 2-D measure theorem is restated for the generated arclen_2d_bounded; 3-D: area_3d_bounded is the true area when only the faces of one axis are within reach (C19_area_3d_single_cap_partial). 3-D: the edge correction is also proved for adjacent faces with disjoint or overlapping caps and parallel-edge configurations (edge term = lune area), and the slice-integral identity holds in every regime; the corner term stays with the numerical reference. Since wave 6 the corner term is proved too (C19_area_3d_bounded_is_area: every regime, axis independence). Reference particles (p_indices; fraction < 1 with numpy's draw reproduced by seeding) are modelled in Model/StaticPairCorrSel.v: C19_gr_sel_is_normalised_corrected_histogram (pairs (reference particle, any particle), edge measure AT the reference particle, normalised by the number of reference particles), C19_gr_sel_all, C19_gr_sel_permutation, C19_gr_sel_translation; the correspondence run draws p_indices (with repeats) and fractions and lets the reference list follow its particles under permutation.",
    note=STAT_NOTE + "The 3-D closed forms as areas are covered numerically only. Geometry theorems depend on the Coq standard library real-number axioms "
         "(sig_forall_dec, sig_not_dec, classic, functional_extensionality_dep).",
    technique="machine-checked proofs (Coq reals / Coquelicot) + translator from Python source to Coq (regenerated per run) + correspondence run"),
@@ -150,7 +150,7 @@ CHECKS.update({
         "a blank canvas moves every row's position by exactly that offset and changes no other column (maxima, refinement and their composition; the harness' embedding satisfies the relational "
         "premises); maxima, refinement and the composed pipeline commute with any axis permutation (positions and per-axis sizes permuted, everything else identical); batch is the concatenation of locate per frame tagged with frame_no (or the position) and is independent of the completion "
         "order of Pool.imap workers; monitors sound; ecc's numerator provably differs under transposition (F13 witness). Correspondence: images x offsets x axis orders x locate parameters "
-        "(incl. canvases > 1 Mpx with a ladder of dim blobs at the percentile threshold), every reported column compared; batch with 1, 2 and more processes and shuffled frame orders. The whole integer pipeline INCLUDING the tail is proved equivariant under translation and any axis permutation under a boolean no-tie hypothesis (refuted without it: the open findings are exactly ties); batch's chunked pool is proved independent of workers/chunking with the frame's own frame_no as tag. Route T for the whole locate: the head is regenerated (tools/py2coq_locatehead.py -> coq/Gen/locatehead.v) and head + Gen/find + Gen/refine + Gen/tail is proved to agree with the composed model (integer images, preprocess=False, python engine); the generated whole locate is executed next to the real one.",
+        "(incl. canvases > 1 Mpx with a ladder of dim blobs at the percentile threshold), every reported column compared; batch with 1, 2 and more processes and shuffled frame orders. The whole integer pipeline INCLUDING the tail is proved equivariant under translation and any axis permutation under a boolean no-tie hypothesis (refuted without it: the open findings are exactly ties); batch's chunked pool is proved independent of workers/chunking with the frame's own frame_no as tag. Route T for the whole locate: the head is regenerated (tools/py2coq_locatehead.py -> coq/Gen/locatehead.v) and head + Gen/find + Gen/refine + Gen/tail is proved to agree with the composed model (integer images, preprocess=False, python engine); the generated whole locate is executed next to the real one. C09_gen_locate_is_model holds for every engine; axis-order theorems are stated for the generated head; convert_to_int / invert_image / the default threshold are executed as generated functions next to the real ones.",
    note=STAT_NOTE + "Bandpass under shift, the where_close dedupe, minmass/maxsize/topn, ep, float images, refinement under transposition and real Pool workers are covered by correspondence only. "
         "Open known findings (printed as KNOWN-FINDING, exit 0): F13 ecc under transposition; F15/F17 exact mass-and-coordinate-sum ties in where_close under transposition / translation."),
 })
@@ -161,7 +161,7 @@ CHECKS.update({
         "than separation to a point the frame already holds (masking argument; the fixed bg_radius provably covers it); candidates are within range of a searched position, pairwise "
         "separated, outside the margin with finite mass >= minmass; the image search is an admissible oracle; by induction over frames (with memory) every output frame satisfies the safety "
         "clauses; monitor sound; the pre-fix bg_radius (F12) and edge test (F16) are refuted on witnesses. Correspondence: get_relocate_candidates driven directly and compared as a set with "
-        "masses and ordering; find_link on blob movies and noise textures checked by the monitor. Completeness half proved for the model (C14_movie_complete, C14_equals_detect_then_link) under boolean hypotheses evaluated in Coq on every generated movie. Route T: FindLinker.percentile_threshold / get_relocate_candidates / relocate are REGENERATED from /repo's source on every run (tools/py2coq_findlink.py -> coq/Gen/findlink.v) and proved to be the model's relocation oracle; the safety theorems are restated for it. Also regenerated (tools/py2coq_findstep.py -> coq/Gen/findstep.v): FindLinker.__init__ / next_level / assign_links, the lost-feature methods of Subnets and find_link_iter; the code's step is modelled as it is (claimed-only, its own grouping) and the safety theorems are restated end to end for the generated driver.",
+        "masses and ordering; find_link on blob movies and noise textures checked by the monitor. Completeness half proved for the model (C14_movie_complete, C14_equals_detect_then_link) under boolean hypotheses evaluated in Coq on every generated movie. Route T: FindLinker.percentile_threshold / get_relocate_candidates / relocate are REGENERATED from /repo's source on every run (tools/py2coq_findlink.py -> coq/Gen/findlink.v) and proved to be the model's relocation oracle; the safety theorems are restated for it. Also regenerated (tools/py2coq_findstep.py -> coq/Gen/findstep.v): FindLinker.__init__ / next_level / assign_links, the lost-feature methods of Subnets and find_link_iter; the code's step is modelled as it is (claimed-only, its own grouping) and the safety theorems are restated end to end for the generated driver. The completeness half is proved for the generated driver as well (C14 completeness for Gen/findstep).",
    note=STAT_NOTE + "The completeness half is proved for the MODEL under an oracle hypothesis (the image search returns exactly the unknown blobs in range) that is tested, not proved, for the real "
         "image search on blob images. Isotropic parameters, integer pixel coordinates, no predictor; assign_links / next_level and the lost-feature methods of Subnets are tied only through the "
         "monitor and the correspondence runs.",
